@@ -56,3 +56,10 @@ Definition C21_nankey_refuted_statement : Prop :=
 Theorem C21_nankey_refuted : C21_nankey_refuted_statement.
 Proof. exact nan_keys_separate. Qed.
 Print Assumptions C21_nankey_refuted.
+
+(* known finding K-C21-zerokey: 0.0 and -0.0 are equal but are different grouping keys *)
+Definition C21_zerokey_refuted_statement : Prop :=
+  exists k1 k2, deq k1 k2 = true /\ cy_eq k1 k2 = Some true /\ key_eq [k1] [k2] = false.
+Theorem C21_zerokey_refuted : C21_zerokey_refuted_statement.
+Proof. exact zero_keys_separate. Qed.
+Print Assumptions C21_zerokey_refuted.
